@@ -196,7 +196,7 @@ def part_templates(ctx):
                      f"map (fun c => run_dec_tpl_v (snd (nth {i} obs_dec_v (TBool, SI 0))) t (apply_c c base)) {cl}")
         meta.append((t, v, cs))
     imp = ("From Verif Require Import C06.Abi C06.Sexp C05.Dec C05.Harness C05.TplRun C05.GenTplDecL C05.GenTplDecV.\n")
-    outs = coqrun.eval_zlists(imp, exprs, "c05tplrun", shard=6, timeout=400)
+    outs = coqrun.eval_zlists(imp, exprs, "c05tplrun", shard=6, timeout=900)
     n = 0
     for (t, v, cs), o in zip(meta, outs):
         n += len(o)
@@ -354,10 +354,10 @@ def run(ctx):
         agree_exprs.append(pre + f"[impl_agree t base {lst('mem')}]")
     import time
     t0 = time.time()
-    outs = A.coq_strings(exprs, "c05exp", imports=IMPORTS, shard=10, timeout=400)
+    outs = A.coq_strings(exprs, "c05exp", imports=IMPORTS, shard=10, timeout=1200)
     ctx.log(f"coq expectations: {len(exprs)} expressions in {time.time() - t0:.1f}s")
-    kw_outs = A.coq_strings(kw_exprs, "c05kw", imports=IMPORTS, shard=12, timeout=400)
-    rx_outs = A.coq_strings(retx_exprs, "c05rx", imports=IMPORTS, shard=12, timeout=400)
+    kw_outs = A.coq_strings(kw_exprs, "c05kw", imports=IMPORTS, shard=12, timeout=1200)
+    rx_outs = A.coq_strings(retx_exprs, "c05rx", imports=IMPORTS, shard=12, timeout=1200)
     rd_idx = [i for i, e in enumerate(retd_exprs) if e is not None]
     rd_outs = dict(zip(rd_idx, A.coq_strings([retd_exprs[i] for i in rd_idx], "c05rd", imports=IMPORTS, shard=10))) if rd_idx else {}
     nt_idx = [i for i, e in enumerate(nt_exprs) if e is not None]
@@ -365,7 +365,7 @@ def run(ctx):
     # implementation-level decoder models (DecImpl.v) on the same corrupted payloads
     t0 = time.time()
     sub = agree_exprs if not quick else agree_exprs[::2]
-    flags = coqrun.eval_zlists(IMPORTS, sub, "c05impl", shard=4, timeout=400)
+    flags = coqrun.eval_zlists(IMPORTS, sub, "c05impl", shard=4, timeout=1200)
     ctx.corr["impl_model_agreement_sets"] = len(flags)
     if any(f != [1] for f in flags):
         ctx.violation("correspondence-broken", "executable ldec/vdec (DecImpl.v) disagree with accept_mem on a corruption "
@@ -543,7 +543,7 @@ def run(ctx):
                       f"join (expect_ctor t {A.coq_bytes(code)} base {cl})")
         ckeys.append((ji, vi))
     if cexprs:
-        couts = A.coq_strings(cexprs, "c05ctor", imports=IMPORTS, shard=4, timeout=400)
+        couts = A.coq_strings(cexprs, "c05ctor", imports=IMPORTS, shard=4, timeout=1200)
         for (ji, vi), o in zip(ckeys, couts):
             t, vals, src, cfg, metas, bl, kwsel, k0 = jm[ji]
             for rec, exp in zip(groups[(ji, vi)], o.split(",")):
